@@ -44,10 +44,10 @@ func init() {
 	register(&Rule{Name: "RANGE.KINDCHECK", Props: []string{"C10"}, Floor: 2,
 		Doc: "a range or length restriction is refused on a type whose kind has no such restriction",
 		Run: ruleRangeKindCheck})
-	register(&Rule{Name: "LOAD.AFTERLINK", Props: []string{"C18"}, Floor: 1,
+	register(&Rule{Name: "LOAD.AFTERLINK", Props: []string{"C18", "C04", "C07"}, Floor: 1,
 		Doc: "no module enters the set after the linking phase of a run has ended (the resolving phases do not read files)",
 		Run: ruleLoadAfterLink})
-	register(&Rule{Name: "PARSE.STACK", Props: []string{"C02"}, Floor: 1,
+	register(&Rule{Name: "PARSE.STACK", Props: []string{"C02", "C03", "C01"}, Floor: 1,
 		Doc: "the statement parser's recursion on nested blocks is bounded, or reports an error instead of exhausting the stack",
 		Run: ruleParseStack})
 	register(&Rule{Name: "DEV.BOUNDPRESENCE", Props: []string{"C08"}, Floor: 1,
